@@ -8,6 +8,7 @@ of the caller-owned TemplateDict around the whole call); no model of DTML.
 """
 import copy
 import hashlib
+import re
 import sys
 
 from . import core
@@ -27,7 +28,7 @@ PROBES = ['fault_inside_pushed_block', 'handler_ran_after_fault',
           'in_batch_param_site', 'sort_key_cmp_site', 'attr_site',
           'falsy_mapping_pushed', 'tree_header_footer_document',
           'recursive_sub_template_reentered', 'same_object_pushed_twice',
-          'client_path_of_two', 'guard_refused_item',
+          'client_path_of_two', 'guard_refused_item', 'blank_handler',
           'guard_refuses_attribute_names',
           'tree_leaves_expand_document',
           'guard_refused_item_skipped',
@@ -351,11 +352,18 @@ class Gen:
         hs = []
         pool = ['EA', 'EAB', 'EX', 'KeyError', 'LookupError', 'Exception',
                 'SystemError', 'ValueError']
+        def hbody():
+            # now and then a handler that renders nothing at all (the
+            # ignore-the-error idiom), or only blanks
+            if r.random() < 0.15:
+                return {'b': self._bid(), 'n': r.choice(
+                    [[], [{'k': 'text', 't': ' '}]])}
+            return self.body(depth + 1)
         for _ in range(r.choice([1, 1, 2, 3])):
             hs.append({'names': r.sample(pool, r.choice([1, 1, 2])),
-                       'body': self.body(depth + 1)})
+                       'body': hbody()})
         if r.random() < 0.4:
-            hs.append({'names': [], 'body': self.body(depth + 1)})
+            hs.append({'names': [], 'body': hbody()})
         return {'k': 'try', 'body': self.body(depth + 1), 'handlers': hs,
                 'else': self.body(depth + 1) if r.random() < 0.4 else None}
 
@@ -854,6 +862,9 @@ def _run_case(case):
             probe('client_path_of_two')
         if ' header="' in prep['src'] or ' footer="' in prep['src']:
             probe('tree_header_footer_document')
+        if re.search(r'<dtml-except[^>]*> ?(<dtml-except|<dtml-else>|</dtml-try>)',
+                     prep['src']):
+            probe('blank_handler')
         if ' leaves="' in prep['src'] or ' expand="' in prep['src']:
             probe('tree_leaves_expand_document')
         if any(e.md is not None and any(
